@@ -85,6 +85,17 @@ fn cases_list(tier: Tier) -> Vec<Value> {
         }
         v.push(json!({"kind": "enum-payloads", "leaf": l, "leaf2": LEAVES[(i + 2) % LEAVES.len()]}));
     }
+    // width: structs with n fields, variants with k payloads, enums with m variants
+    let wmax = if tier == Tier::Quick { 12 } else { 24 };
+    for n in 0..=wmax {
+        for rot in 0..(if tier == Tier::Quick { 1 } else { 3 }) {
+            v.push(json!({"kind": "wide-struct", "n": n, "rot": rot}));
+            v.push(json!({"kind": "wide-variant", "n": n, "rot": rot}));
+        }
+        if n >= 1 {
+            v.push(json!({"kind": "many-variants", "n": n}));
+        }
+    }
     for name in ["empty-struct", "unit-variants", "nested", "recursive-enum", "variant-named-like-fields", "struct-in-enum-in-struct"] {
         v.push(json!({"kind": "shape", "name": name}));
     }
@@ -152,6 +163,44 @@ fn build(case: &Value, tier: Tier) -> Option<Program> {
                 emit(&mut b, "En", E::Ctor("En".into(), "One".into(), true, vec![val.clone()], vec![]));
                 let v2 = leaf_values(l2);
                 emit(&mut b, "En", E::Ctor("En".into(), "Two".into(), true, vec![val, v2[i % v2.len()].clone()], vec![]));
+            }
+        }
+        "wide-struct" | "wide-variant" => {
+            let nf = case["n"].as_u64().unwrap() as usize;
+            let rot = case["rot"].as_u64().unwrap() as usize;
+            let leaves: Vec<&str> = (0..nf).map(|i| LEAVES[(i + rot) % LEAVES.len()]).collect();
+            // two values: per leaf its first and its last boundary value
+            let vals = |which: usize| -> Vec<E> {
+                leaves
+                    .iter()
+                    .map(|l| {
+                        let lv = leaf_values(l);
+                        if which == 0 { lv[0].clone() } else { lv[lv.len() - 1].clone() }
+                    })
+                    .collect()
+            };
+            if case["kind"] == "wide-struct" {
+                let fields: Vec<(String, Ty)> = leaves.iter().enumerate().map(|(i, l)| (format!("f{}", i), leaf_ty(l))).collect();
+                items.push(Item::Struct(StructDef { name: "W".into(), generics: vec![], fields, derives: derives() }));
+                for which in 0..2 {
+                    let fs: Vec<(String, E)> = vals(which).into_iter().enumerate().map(|(i, e)| (format!("f{}", i), e)).collect();
+                    emit(&mut b, "W", E::StructLit("W".into(), fs, vec![]));
+                }
+            } else {
+                items.push(Item::Enum(EnumDef { name: "WV".into(), generics: vec![], variants: vec![("U".into(), vec![]), ("Wide".into(), leaves.iter().map(|l| leaf_ty(l)).collect())], derives: derives() }));
+                for which in 0..2 {
+                    emit(&mut b, "WV", E::Ctor("WV".into(), "Wide".into(), true, vals(which), vec![]));
+                }
+                emit(&mut b, "WV", E::Ctor("WV".into(), "U".into(), true, vec![], vec![]));
+            }
+        }
+        "many-variants" => {
+            let m = case["n"].as_u64().unwrap() as usize;
+            let variants: Vec<(String, Vec<Ty>)> = (0..m).map(|i| (format!("V{}", i), (0..(i % 3)).map(|j| leaf_ty(LEAVES[(i + j) % LEAVES.len()])).collect())).collect();
+            items.push(Item::Enum(EnumDef { name: "MV".into(), generics: vec![], variants, derives: derives() }));
+            for i in 0..m {
+                let args: Vec<E> = (0..(i % 3)).map(|j| leaf_values(LEAVES[(i + j) % LEAVES.len()])[0].clone()).collect();
+                emit(&mut b, "MV", E::Ctor("MV".into(), format!("V{}", i), true, args, vec![]));
             }
         }
         "shape" => match case["name"].as_str().unwrap() {
@@ -222,7 +271,7 @@ impl Family for Derive {
         &["C18", "C01", "C02", "C04"]
     }
     fn rule(&self) -> &'static str {
-        "derived ToString+ToJson on: a struct and a variant holding every string of length <= 2 (quick) / <= 3 (thorough) over 11 character classes {letter, quote, backslash, slash, space, DEL, é, U+00AD, U+2028, emoji, U+E0001}; structs with 1-2 fields over 7 leaf types x 7 field names (incl. self, tag, fields, x0, ret, value) at boundary values; enums with 0-2 payloads; empty struct, unit variants, nested and recursive definitions, variants named tag/fields; 30 unsupported definitions (tuple, array, Vec, Ref, fn, generic instance, non-derived struct fields; generic definitions) that must be rejected before the compile stage. oracle: each to_json line parses with a strict RFC 8259 parser to the same JSON value as the reference rendering; each to_string line equals the reference `Name { f: v }` / `Enum::Variant(v)` rendering. non-trivial = programs whose values contain a character that JSON must escape or a boundary number; distinct = distinct source text"
+        "derived ToString+ToJson on: a struct and a variant holding every string of length <= 2 (quick) / <= 3 (thorough) over 11 character classes {letter, quote, backslash, slash, space, DEL, é, U+00AD, U+2028, emoji, U+E0001}; structs with 1-2 fields over 7 leaf types x 7 field names (incl. self, tag, fields, x0, ret, value) at boundary values; enums with 0-2 payloads; width: structs with 0..12 (thorough 0..24) fields, variants with 0..12 (0..24) payloads, enums with 1..12 (1..24) variants, leaf types cycling (thorough: 3 rotations); empty struct, unit variants, nested and recursive definitions, variants named tag/fields; 30 unsupported definitions (tuple, array, Vec, Ref, fn, generic instance, non-derived struct fields; generic definitions) that must be rejected before the compile stage. oracle: each to_json line parses with a strict RFC 8259 parser to the same JSON value as the reference rendering; each to_string line equals the reference `Name { f: v }` / `Enum::Variant(v)` rendering. non-trivial = programs whose values contain a character that JSON must escape or a boundary number; distinct = distinct source text"
     }
     fn cases(&self, tier: Tier) -> Box<dyn Iterator<Item = Value> + '_> {
         Box::new(cases_list(tier).into_iter())
@@ -278,9 +327,11 @@ impl Family for Derive {
             "strings" => format!("strings;holder={}", case["holder"].as_str().unwrap()),
             "struct1" | "struct2" => format!("{};leaf={};field={}", case["kind"].as_str().unwrap(), case["leaf"].as_str().unwrap(), case["field"].as_str().unwrap()),
             "enum-payloads" => format!("enum-payloads;leaf={}", case["leaf"].as_str().unwrap()),
-            _ => format!("shape={}", case["name"].as_str().unwrap()),
+            "wide-struct" | "wide-variant" | "many-variants" => format!("{};n={}", case["kind"].as_str().unwrap(), case["n"]),
+            _ => format!("shape={}", case["name"].as_str().unwrap_or("?")),
         };
-        let opts = DiffOpts { props_sem: &["C18", "C01"], props_go: &["C02", "C18"], props_panic: &["C04", "C18"], normalise: Some(canon), ..DiffOpts::default() };
+        // every definition built here is one the derive supports: a rejection (generated code failing in the typer) is a finding
+        let opts = DiffOpts { props_sem: &["C18", "C01"], props_go: &["C02", "C18"], props_panic: &["C04", "C18"], props_reject: &["C18"], normalise: Some(canon), ..DiffOpts::default() };
         let res = differential(&prog, &site, "derive", case, ctx, &opts, &mut rep);
         if let Some(d) = &res {
             if let Some(go) = &d.go_obs {
